@@ -59,6 +59,8 @@ type Step struct {
 	Kind string         `json:"kind"`
 	N    int            `json:"n"`
 	Pre  map[string]int `json:"pre"`
+	// Cands: payloads of concurrently issued first answers (op = answerc)
+	Cands []map[string]int `json:"cands"`
 }
 
 type Schedule struct {
@@ -464,7 +466,7 @@ func (r *runner) perform(ctx context.Context, cancel context.CancelFunc, inst *b
 		r.add(Rec{Ev: ev, Node: st.Node, Occ: st.Occ, Vars: copyVars(st.Vars), Kind: st.Kind, N: st.N})
 		q.answered = true
 		r.mu.Unlock()
-		res := map[string]any{}
+		res := map[string]any{"zz_undeclared": 7}
 		for k, v := range st.Vars {
 			res[k] = v
 		}
@@ -483,6 +485,41 @@ func (r *runner) perform(ctx context.Context, cancel context.CancelFunc, inst *b
 		}
 		ok := callWithin(o.T, func() { q.tt.Do(dopts...) })
 		if !ok {
+			r.mu.Lock()
+			r.add(Rec{Ev: "blocked", Kind: "do", Node: st.Node, Occ: st.Occ})
+			r.mu.Unlock()
+			return false
+		}
+	case "answerc":
+		r.mu.Lock()
+		q := r.findReq(st.Node, st.Occ)
+		if q == nil {
+			r.add(Rec{Ev: "timeout", Kind: "req:" + st.Node, N: st.Occ})
+			r.mu.Unlock()
+			return false
+		}
+		for _, cnd := range st.Cands {
+			r.add(Rec{Ev: "cand", Node: st.Node, Occ: st.Occ, Vars: copyVars(cnd)})
+		}
+		r.add(Rec{Ev: "ansc", Node: st.Node, Occ: st.Occ, N: len(st.Cands)})
+		q.answered = true
+		r.mu.Unlock()
+		var wg sync.WaitGroup
+		gate := make(chan struct{})
+		for _, cnd := range st.Cands {
+			res := map[string]any{}
+			for k, v := range cnd {
+				res[k] = v
+			}
+			wg.Add(1)
+			go func() {
+				defer wg.Done()
+				<-gate
+				q.tt.Do(bpmn.DoWithResults(res))
+			}()
+		}
+		close(gate)
+		if !callWithin(o.T, wg.Wait) {
 			r.mu.Lock()
 			r.add(Rec{Ev: "blocked", Kind: "do", Node: st.Node, Occ: st.Occ})
 			r.mu.Unlock()
@@ -514,9 +551,22 @@ func (r *runner) perform(ctx context.Context, cancel context.CancelFunc, inst *b
 		if d == 0 {
 			d = 30 * time.Millisecond
 		}
-		wctx, wcancel := context.WithTimeout(context.Background(), d)
-		done := inst.WaitUntilComplete(wctx)
-		wcancel()
+		k := st.Occ
+		if k < 1 {
+			k = 1
+		}
+		results := make([]bool, k)
+		var wg sync.WaitGroup
+		for i := 0; i < k; i++ {
+			wg.Add(1)
+			go func(i int) {
+				defer wg.Done()
+				wctx, wcancel := context.WithTimeout(context.Background(), d)
+				results[i] = inst.WaitUntilComplete(wctx)
+				wcancel()
+			}(i)
+		}
+		wg.Wait()
 		r.mu.Lock()
 		pend := 0
 		for _, l := range r.reqs {
@@ -526,7 +576,9 @@ func (r *runner) perform(ctx context.Context, cancel context.CancelFunc, inst *b
 				}
 			}
 		}
-		r.add(Rec{Ev: "wait", Ok: done, N: pend})
+		for i := 0; i < k; i++ {
+			r.add(Rec{Ev: "wait", Ok: results[i], N: pend, Occ: st.N})
+		}
 		r.mu.Unlock()
 	case "cancel":
 		r.mu.Lock()
